@@ -2766,7 +2766,8 @@ def check_C17(ctx):
             expect.append((ent, f))
         stream = b"".join(parts)
         try:
-            got = [(raw, parsed) for raw, parsed in UBXReader(io.BytesIO(stream), msgmode=3, quitonerror=0, protfilter=2)]
+            got = [(raw, parsed) for raw, parsed in UBXReader(io.BytesIO(stream), msgmode=3, quitonerror=0, protfilter=rng.choice([7, 7, 3, 6, 2]))
+                   if raw[:1] == b"\xb5"]
         except Exception as e:  # noqa
             res.finding(f"class=setpoll-stream-raises-{canon.excname(e)}", "reading a stream of generated SET/POLL frames with msgmode=SETPOLL raised", dict(stream=stream.hex()[:4000]))
             continue
